@@ -101,7 +101,9 @@ def gen(rnd, big=False):
                 at = list(prev['atoms'])
         params = [rnd.choice(['1', '2', '0.47', '1250', '-0.5', '180.0', 'gb_21', '1e-05']) for _ in range(rnd.randint(0, 4))]
         if rnd.random() < 0.2:
-            params = [rnd.choice([1, 2, 0.33, 700, 1e-05, -3]) for _ in range(rnd.randint(1, 3))]
+            params = [rnd.choice([1, 2, 0.33, 700, 1e-05, -3, 0, 0.0, False, '']) for _ in range(rnd.randint(1, 3))]
+            if params[-1] == '':
+                params[-1] = 0     # an empty trailing token would vanish on any whitespace reader
         meta = {}
         r = rnd.random()
         if r < 0.15:
